@@ -30,6 +30,10 @@ MUTATORS = frozenset('append extend insert update pop popitem clear add discard 
                      '__setitem__ __delitem__ __setattr__ __delattr__ __iadd__'.split())
 READERS = frozenset('get pop items values keys copy setdefault popitem __getitem__ '
                     'most_common elements'.split())
+STR_METHODS = frozenset('join format strip lstrip rstrip replace lower upper title capitalize '
+                        'startswith endswith count index find rfind encode decode zfill ljust rjust '
+                        'center isdigit isalpha isidentifier casefold'.split())
+STR_LIST_METHODS = frozenset('split rsplit splitlines partition rpartition'.split())
 PURE_BUILTINS = frozenset('len id isinstance issubclass type callable repr str int float bool '
                           'hash hasattr min max sum any all abs ord chr format bytes range '
                           'round divmod print'.split())
@@ -68,6 +72,7 @@ class UnitFlow:
         self.unit = unit
         self.var = {}          # name -> set(tokens)
         self.contents = {}     # fresh token -> set(tokens)
+        self.fields = {}       # (fresh token, attribute) -> set(tokens): stores seen in this unit
         self.comp_env = {}     # comprehension variable -> tokens (union)
         self.effects = []
         self.returns = set()
@@ -205,7 +210,10 @@ class UnitFlow:
             elif k == 'global':
                 out.add(('greach', t[1]))
             elif k == 'fresh':
-                c = self.contents.get(t)
+                c = set(self.contents.get(t) or ())
+                for (ft, _a), fv in self.fields.items():
+                    if ft == t:
+                        c |= fv
                 if c:
                     out |= c
                 else:
@@ -309,6 +317,8 @@ class UnitFlow:
         for t in base:
             if t[0] == 'global' and t[1] in self.program.classes:
                 out.add(('global', t[1] + '.' + e.attr))
+            elif t[0] == 'fresh' and (t, e.attr) in self.fields:
+                out |= self.fields[(t, e.attr)] or {CONST}
             else:
                 out |= self.inner({t})
         return out
@@ -453,7 +463,7 @@ class UnitFlow:
             base = self.orig(target.value)
             for b in base:
                 if b[0] == 'fresh':
-                    self.contents.setdefault(b, set()).update(toks)
+                    self.fields.setdefault((b, target.attr), set()).update(toks)
         elif isinstance(target, ast.Subscript):
             base = self.orig(target.value)
             for b in base:
@@ -467,11 +477,13 @@ class UnitFlow:
         nodes = self.unit.own_nodes()
         for _ in range(12):
             before = (sum(len(v) for v in self.var.values()),
-                      sum(len(v) for v in self.contents.values()), len(self.returns))
+                      sum(len(v) for v in self.contents.values()) + sum(len(v) for v in self.fields.values()),
+                      len(self.returns))
             for n in nodes:
                 self._transfer(n)
             after = (sum(len(v) for v in self.var.values()),
-                     sum(len(v) for v in self.contents.values()), len(self.returns))
+                     sum(len(v) for v in self.contents.values()) + sum(len(v) for v in self.fields.values()),
+                     len(self.returns))
             if before == after:
                 break
         else:
@@ -532,7 +544,10 @@ class UnitFlow:
                 t = n.target
                 if isinstance(t, ast.Name):
                     toks = self.name_origins(t.id)
-                    if any(k[0] in ('param', 'reach', 'global', 'greach', 'frame') for k in toks):
+                    immutable_rhs = isinstance(n.value, ast.JoinedStr) or (
+                        isinstance(n.value, ast.Constant) and isinstance(n.value.value, (str, bytes, int, float)))
+                    if not immutable_rhs and any(
+                            k[0] in ('param', 'reach', 'global', 'greach', 'frame') for k in toks):
                         out.append(Effect(u, n, 'aug', t, frozenset(toks)))
                 elif isinstance(t, ast.Attribute):
                     out.append(Effect(u, n, 'store-attr', t.value, frozenset(self.orig(t.value)), t.attr))
@@ -661,6 +676,11 @@ class Analysis:
             fr = fl.fresh(call, 'ext:' + payload)
             fl.contents[fr] |= union | fl.inner(union)
             return {fr}
+        if isinstance(f, ast.Attribute) and kind == 'attr':
+            if f.attr in STR_METHODS:
+                return {CONST}
+            if f.attr in STR_LIST_METHODS:
+                return {fl.fresh(call, 'strlist')}
         if isinstance(f, ast.Attribute):
             # x.new_child({...}) : a new frame
             if f.attr == 'new_child':
